@@ -72,12 +72,21 @@ func H06_Forward() {
 		r.peerPredictabilities[p2.peer] = map[bpv7.EndpointID]float64{farNode: 0.5}
 		r.dataMutex.Unlock()
 	}
-	withHop, withAge, withUnknown := verif.Bool("hop"), verif.Bool("age"), verif.Bool("unknown")
+	withHop, withAge := verif.Bool("hop"), verif.Bool("age")
+	// 0..3 unsupported blocks of adjacent types, each flagged for removal or not (a kept one between removed ones, runs
+	// of removed ones)
+	pats := [][]bool{{}, {true}, {true, true}, {true, false, true}, {false}}
+	unkRemove := pats[verif.Choose("unkpat", len(pats))]
+	nUnknown := len(unkRemove)
 	hopCount, hopLimit := verif.U8("hc"), verif.U8("hl")
 	verif.Assume(hopCount <= hopLimit)
 	age0 := verif.U64("age0")
 	verif.Assume(age0 < 1000000)
-	residence := uint64(verif.Choose("residence", 3)) * 1700 // 0, 1700, 3400 ms
+	resIdx := verif.Choose("residence", 3)
+	if shards := verif.Param("shards", 1); shards > 1 {
+		verif.Assume(resIdx%shards == verif.Param("shard", 0))
+	}
+	residence := uint64(resIdx) * 1700 // 0, 1700, 3400 ms
 	bl := bpv7.Builder().Source("dtn://origin/app").Destination("dtn://far/inbox").Lifetime("1h").PayloadBlock(verif.Bytes("pl", 3)).
 		PreviousNodeBlock(p1.peer)
 	if withAge {
@@ -88,8 +97,12 @@ func H06_Forward() {
 	if withHop {
 		bl = bl.Canonical(&bpv7.HopCountBlock{Limit: hopLimit, Count: hopCount})
 	}
-	if withUnknown {
-		bl = bl.Canonical(bpv7.NewGenericExtensionBlock([]byte{9, 9}, 222), bpv7.RemoveBlock)
+	for i := 0; i < nUnknown; i++ {
+		fl := bpv7.BlockControlFlags(0)
+		if unkRemove[i] {
+			fl = bpv7.RemoveBlock
+		}
+		bl = bl.Canonical(bpv7.NewGenericExtensionBlock([]byte{9, byte(i)}, uint64(222+i)), fl)
 	}
 	if algo == "binary_spray" {
 		bl = bl.Canonical(bpv7.NewBinarySprayBlock(8))
@@ -142,8 +155,15 @@ func H06_Forward() {
 		verif.Observe("age", got, stay)
 		verif.Assert(got+2 >= age0+stay && got <= age0+stay+2 && stay >= residence, "the bundle age grew by the residence time in milliseconds")
 	}
-	_, uerr := sent.ExtensionBlock(222)
-	verif.Assert(uerr != nil, "an unsupported block flagged for removal is removed")
+	for i := 0; i < nUnknown; i++ {
+		ub, uerr := sent.ExtensionBlock(uint64(222 + i))
+		if unkRemove[i] {
+			verif.Assert(uerr != nil, "an unsupported block flagged for removal is removed (also on the retry, also next to another one)")
+		} else {
+			ob, _ := b.ExtensionBlock(uint64(222 + i))
+			verif.Assert(uerr == nil && bytes.Equal(canonicalEnc(*ub), canonicalEnc(*ob)), "an unsupported block that is not flagged for removal leaves the node unchanged")
+		}
+	}
 	if algo == "binary_spray" {
 		sb, serr := sent.ExtensionBlock(bpv7.ExtBlockTypeBinarySprayBlock)
 		verif.Assert(serr == nil && sb.Value.(*bpv7.BinarySprayBlock).RemainingCopies() == 4, "binary spray hands over half of the copies it received (block owned by the routing algorithm)")
